@@ -22,6 +22,7 @@ def final(t):
     if k == 'R': return ('G', t[1], t[3])
     if k in ('b2', 't2'): return (k[0], t[2])
     if k == '>': return final(t[2])
+    if k == '!': return t[1]
     return t
 
 
@@ -30,6 +31,7 @@ def fmt(t):
     if k == 'R': return 'R(%d,%s,%s)' % (t[1], fmt(t[2]), fmt(t[3]))
     if k in ('b2', 't2'): return '%s(%s>%s)' % (k[0], hx(t[1]), hx(t[2]))
     if k == '>': return fmt(t[1]) + '>' + fmt(t[2])
+    if k == '!': return fmt(t[1]).replace('(', '!(', 1)      # the same leaf built through cbor_new_* + cbor_set_* (or cbor_new_null / undef / build_bool)
     if k in 'un': return '%s%d(%d)' % (k, t[1], t[2])
     if k in 'bt': return '%s(%s)' % (k, hx(t[1]))
     if k in 'BT': return '%s[%s]' % (k, ','.join('%s(%s)' % (k.lower(), hx(c)) for c in t[1]))
@@ -218,6 +220,8 @@ def corpus(tier, rng, assigned_only=True):
         mods.append(('t2', old, new)); mods.append(('b2', old, new))
         mods.append(('M', [(('t2', old, new), ('b2', new, old), False)], ''))
         mods.append(('G', 2, ('t2', old, new)))
+    for lf in leaves(assigned_only)[::3]:
+        if lf[0] in 'unhsdc': mods.append(('!', lf)); mods.append(('A', [(('!', lf), False), (lf, False)], ''))
     mods.append(('R', 5, ('R', 6, one, ('t', b'x')), ('A', [(('>', one, ('R', 7, one, ('u', 16, 9))), False)], '')))
     out += mods
     # deep chains
